@@ -30,6 +30,11 @@ class Renamer(ast.NodeTransformer):
             return ast.copy_location(ast.Name(id=node.id + "_rn", ctx=node.ctx), node)
         return node
 
+    def visit_arg(self, node):
+        if node.arg in self.names:
+            node.arg = node.arg + "_rn"
+        return node
+
     def visit_ExceptHandler(self, node):
         self.generic_visit(node)
         if node.name and node.name in self.names:
@@ -37,7 +42,7 @@ class Renamer(ast.NodeTransformer):
         return node
 
 
-def local_names(fn):
+def local_names(fn, kwnames=frozenset()):
     params = set()
     stored = set()
     banned = set()
@@ -46,7 +51,10 @@ def local_names(fn):
         if isinstance(n, (ast.FunctionDef, ast.AsyncFunctionDef, ast.Lambda)):
             a = n.args
             for x in a.posonlyargs + a.args + a.kwonlyargs:
-                params.add(x.arg)
+                if n is not fn and x.arg not in kwnames and x.arg not in ("self", "cls"):
+                    stored.add(x.arg)        # parameters of lambdas / nested defs never passed by keyword: renamed too
+                else:
+                    params.add(x.arg)
             if a.vararg:
                 params.add(a.vararg.arg)
             if a.kwarg:
@@ -74,12 +82,13 @@ def local_names(fn):
 def rename_module(src):
     tree = ast.parse(src)
     changed = 0
+    kwnames = frozenset(k.arg for n in ast.walk(tree) if isinstance(n, ast.Call) for k in n.keywords if k.arg)
 
     def do(body):
         nonlocal changed
         for st in body:
             if isinstance(st, (ast.FunctionDef, ast.AsyncFunctionDef)):
-                names = local_names(st)
+                names = local_names(st, kwnames)
                 if names:
                     Renamer(names).visit(st)
                     changed += len(names)
